@@ -38,6 +38,8 @@ IMPLICIT = [
     ('li*>s*2', lambda l: '<li><s></s><s>%s</s></li>' % l, '', ''),
     ('x{k}*', lambda l: '<x>k%s</x>' % l, '', ''),
     ('p>(x+y{$#})*', lambda l: '<x></x><y>%s</y>' % l, '<p>', '</p>'),
+    ('li*>s*2{$#}', lambda l: '<li><s>%s</s><s>%s</s></li>' % (l, l), '', ''),
+    ('(d{$#}+e*2>b[t=$#])*', lambda l: '<d>%s</d><e><b t="%s"></b></e><e><b t="%s"></b></e>' % (l, l, l), '', ''),
 ]
 PLAIN = [
     ('x', '<x>', '</x>'),
